@@ -342,6 +342,76 @@ def desugar_bool_then(raw, log):
         log.append("desugared %d `bool::then(closure)` call(s) into if/else with the closure body in place" % n_done)
 
 
+def fold_constant_switches(raw, log):
+    """A branch on a temporary whose only definition is a literal (`if cfg!(debug_assertions) {..}` of
+    `debug_assert!` with debug assertions off - the configuration the facts are extracted in -, `if false`)
+    takes one side: the switch becomes a goto and blocks that are no longer reachable are emptied. rustc does
+    the same folding before code generation; at the MIR level the facts are taken from it has not happened yet."""
+    n_fold = 0
+    for b in raw["bodies"]:
+        ndefs, cval, addr = {}, {}, set()
+        for blk in b["blocks"]:
+            for st in blk["stmts"]:
+                if st["k"] == "assign":
+                    l = st["place"]["l"]
+                    ndefs[l] = ndefs.get(l, 0) + (1 if not st["place"]["p"] else 2)
+                    rv = st["rv"]
+                    if not st["place"]["p"] and rv["k"] == "use" and rv["op"]["k"] == "const" and rv["op"]["c"].get("int") is not None:
+                        cval[l] = rv["op"]["c"]["int"]
+                    if rv["k"] in ("ref", "rawptr") and not rv["place"]["p"]:
+                        addr.add(rv["place"]["l"])
+            t = blk["term"]
+            if t["k"] == "call" and t.get("dest"):
+                ndefs[t["dest"]["l"]] = ndefs.get(t["dest"]["l"], 0) + 2
+        argc = b.get("arg_count", 0)
+        changed = False
+        for blk in b["blocks"]:
+            t = blk["term"]
+            if t["k"] != "switch":
+                continue
+            d = t["discr"]
+            v = None
+            if d["k"] == "const":
+                v = d["c"].get("int")
+            elif d["k"] in ("move", "copy") and not d["place"]["p"]:
+                l = d["place"]["l"]
+                if l > argc and ndefs.get(l) == 1 and l in cval and l not in addr:
+                    v = cval[l]
+            if v is None:
+                continue
+            tgt = t["otherwise"]
+            for val, tb in t["arms"]:
+                if val == v:
+                    tgt = tb
+            blk["term"] = {"k": "goto", "t": tgt, "span": t.get("span"), "folded_switch": True}
+            n_fold += 1
+            changed = True
+        if changed:
+            succ = {}
+            for blk in b["blocks"]:
+                t = blk["term"]
+                out = []
+                for k in ("t", "unwind", "otherwise"):
+                    if isinstance(t.get(k), int) and not isinstance(t.get(k), bool):
+                        out.append(t[k])
+                for a in t.get("arms", []) if t["k"] == "switch" else []:
+                    out.append(a[1])
+                succ[blk["i"]] = out
+            seen, stack = {0}, [0]
+            while stack:
+                x = stack.pop()
+                for y in succ.get(x, []):
+                    if y not in seen:
+                        seen.add(y)
+                        stack.append(y)
+            for blk in b["blocks"]:
+                if blk["i"] not in seen:
+                    blk["stmts"] = []
+                    blk["term"] = {"k": "unreachable", "span": blk["term"].get("span"), "pruned": True}
+    if n_fold:
+        log.append("%d branch(es) on a literal condition folded (debug assertions are off in the analysed configuration)" % n_fold)
+
+
 _LAZY = {  # lazy combinator -> (eager twin, index of the closure argument)
     "core::option::Option::<T>::ok_or_else": ("core::option::Option::<T>::ok_or", 1),
     "core::option::Option::<T>::unwrap_or_else": ("core::option::Option::<T>::unwrap_or", 1),
@@ -609,6 +679,7 @@ def apply(text):
     bc = baseline_closures()
     if bc:
         text, raw = renumber_closures(text, raw, bc, log)
+    fold_constant_switches(raw, log)
     ba = baseline_adts()
     if ba:
         rename_fields(raw, ba, log)
